@@ -11,6 +11,7 @@ import (
 	"verifharness/bmodel"
 	"verifharness/evid"
 	"verifharness/gen"
+	"verifharness/probe"
 	"verifharness/rk"
 	"verifharness/sem"
 	"verifharness/sgen"
@@ -977,6 +978,77 @@ func TestEmptyBranchTable(t *testing.T) {
 		}
 	}
 	evid.Exhaustive("if/elif/else with empty blocks", n)
+}
+
+// TestMapGrownWhileIterated: a for-in over a map whose body stores new keys into that map (directly, through another
+// name, through the map that holds it). Whether a key stored during the loop is delivered is not specified - but every
+// key the map had when the loop began is delivered exactly once, in every run, and no key is delivered twice. The run is
+// repeated because the order in which a map delivers its keys changes from run to run.
+func TestMapGrownWhileIterated(t *testing.T) {
+	mapLit := func(n int) *gen.Node {
+		m := gen.NMap()
+		for i := 0; i < n; i++ {
+			m.Args = append(m.Args, gen.NStr(string(rune('a'+i))), gen.NInt(int64(i)))
+		}
+		return m
+	}
+	grow := func(target *gen.Node) *gen.Node {
+		// only the original (one-letter) keys add a key, so the loop ends
+		return gen.NIf([]*gen.Node{gen.NBin("==", gen.NCall("len", id("k")), gen.NInt(1))}, [][]*gen.Node{{
+			gen.NAssign("=", []*gen.Node{gen.NIndex(target, gen.NBin("+", id("k"), id("k")))}, []*gen.Node{gen.NInt(0)}),
+			gen.NAssign("=", []*gen.Node{gen.NIndex(target.Clone(), gen.NBin("+", gen.NStr("z"), id("k")))}, []*gen.Node{gen.NInt(0)})}}, nil, false)
+	}
+	n := 0
+	for size := 2; size <= 9; size++ {
+		progs := map[string][]*gen.Node{
+			"direct":        {gen.NSet("m", mapLit(size)), gen.NForIn("k", id("m"), []*gen.Node{gen.NCall("probe", gen.NStr("k"), id("k")), grow(id("m"))}), gen.NCall("probe", gen.NStr("after"), gen.NCall("len", id("m")))},
+			"through-alias": {gen.NSet("m", mapLit(size)), gen.NSet("al", id("m")), gen.NForIn("k", id("m"), []*gen.Node{gen.NCall("probe", gen.NStr("k"), id("k")), grow(id("al"))}), gen.NCall("probe", gen.NStr("after"), gen.NCall("len", id("m")))},
+			"through-holder": {gen.NSet("h", gen.NList(mapLit(size))), gen.NSet("m", gen.NIndex(id("h"), gen.NInt(0))), gen.NForIn("k", id("m"), []*gen.Node{gen.NCall("probe", gen.NStr("k"), id("k")), grow(gen.NIndex(id("h"), gen.NInt(0)))}), gen.NCall("probe", gen.NStr("after"), gen.NCall("len", id("m")))},
+			"grow-then-probe": {gen.NSet("m", mapLit(size)), gen.NForIn("k", id("m"), []*gen.Node{grow(id("m")), gen.NCall("probe", gen.NStr("k"), id("k"))}), gen.NCall("probe", gen.NStr("after"), gen.NCall("len", id("m")))},
+		}
+		for name, p := range progs {
+			for _, v2 := range []bool{false, true} {
+				c := &sem.Case{Scripts: map[string][]*gen.Node{"main.p": gen.FixAll(gen.CloneProg(p))}, Root: "main.p", Meas: "m", V2: v2}
+				c.Print(nil)
+				who := map[bool]string{false: "v1", true: "v2"}[v2]
+				for rep := 0; rep < evid.Scale(25, 200); rep++ {
+					var o sem.ImplOut
+					if v2 {
+						o = sem.RunV2(c, &probe.Sig{})
+					} else {
+						o = sem.RunV1(c, 0)
+					}
+					rp := c.Replay("a map that grows while it is iterated: every key it had at the start is delivered exactly once")
+					if o.Crash != nil || o.Err != nil || len(o.LoadErrs) > 0 {
+						rk.Fail(t, "mapgrown", rp, "%s: the run failed: crash %v, error %v, load %v\nscript:\n%s", who, o.Crash, o.Err, o.LoadErrs, c.Texts[c.Root])
+					}
+					seen := map[string]int{}
+					for _, r := range o.Trace {
+						if r.Label == "k" && len(r.Vals) == 1 {
+							seen[r.Vals[0]]++
+						}
+					}
+					for i := 0; i < size; i++ {
+						key := probe.Render(string(rune('a' + i)))
+						if seen[key] != 1 {
+							rk.Fail(t, "mapgrown", rp, "%s: key %s, which the map held when the loop began, was delivered %d times (run %d of the same script); delivered: %v\nscript:\n%s", who, key, seen[key], rep+1, seen, c.Texts[c.Root])
+						}
+					}
+					for k, cnt := range seen {
+						if cnt > 1 {
+							rk.Fail(t, "mapgrown", rp, "%s: key %s was delivered %d times; delivered: %v\nscript:\n%s", who, k, cnt, seen, c.Texts[c.Root])
+						}
+					}
+					if last := o.Trace[len(o.Trace)-1]; last.Label != "after" || len(last.Vals) != 1 || last.Vals[0] != probe.Render(int64(3*size)) {
+						rk.Fail(t, "mapgrown", rp, "%s: after the loop the map should hold %d keys, the last record is %v\nscript:\n%s", who, 3*size, last, c.Texts[c.Root])
+					}
+					n++
+				}
+				evid.Case(fmt.Sprintf("mapgrown/%s/%d/%s", name, size, who), true, "map-grown-while-iterated/"+who)
+			}
+		}
+	}
+	evid.Exhaustive("map sizes 2..9 x way of storing the new keys x interpreter, each run repeatedly", n)
 }
 
 func TestReplays(t *testing.T) {
